@@ -341,6 +341,65 @@ theorem exampleHeader_puts :
 /-- A `put` without two operands makes `get_encoding` (and font construction) raise `ValueError`. -/
 theorem put_underflow_raises : t1Puts [112, 117, 116, 32] = .error "ValueError" := by decide +kernel
 
+/-! ## Font cache -/
+
+/-- Every cached font is the one construction gives for that object's dictionary. -/
+def CacheOK (mk : RawFontDict → Except String Font) (doc : Nat → RawFontDict) (m : RsrcMgr) : Prop :=
+  ∀ e ∈ m.cache, mk (doc e.1) = .ok e.2
+
+theorem getFont_transparent (mk : RawFontDict → Except String Font) (doc : Nat → RawFontDict) (m : RsrcMgr)
+    (h : CacheOK mk doc m) (i : Nat) :
+    (getFont mk m i (doc i)).1 = mk (doc i) ∧ CacheOK mk doc (getFont mk m i (doc i)).2 := by
+  unfold getFont
+  by_cases hi : i = 0
+  · subst hi
+    simp only [bne_self_eq_false, Bool.false_eq_true, if_false, Bool.false_and]
+    cases mk (doc 0) <;> exact ⟨rfl, h⟩
+  · have hne : (i != 0) = true := by simp [hi]
+    simp only [hne, if_true, Bool.true_and]
+    cases hl : cacheLookup m.cache i with
+    | some f =>
+      refine ⟨?_, h⟩
+      unfold cacheLookup at hl
+      cases hf : m.cache.find? (fun e => e.1 == i) with
+      | none => simp [hf] at hl
+      | some e =>
+        simp only [hf, Option.some.injEq] at hl
+        have hm := List.mem_of_find?_eq_some hf
+        have hp : e.1 = i := by simpa using List.find?_some hf
+        have := h e hm
+        rw [hp, hl] at this
+        exact this.symm
+    | none =>
+      cases hb : mk (doc i) with
+      | error e => exact ⟨rfl, h⟩
+      | ok f =>
+        refine ⟨rfl, ?_⟩
+        cases m.caching
+        · exact h
+        · intro e he
+          simp only [if_true, List.mem_cons] at he
+          rcases he with rfl | he
+          · exact hb
+          · exact h e he
+
+/-- **Font construction and caching**: whatever the order and repetition of the pages' font requests and whether
+caching is on or off, each request gets exactly the font that constructing it from its dictionary gives
+(so text and advance of a glyph do not depend on what was shown before). -/
+theorem font_cache_transparent (mk : RawFontDict → Except String Font) (doc : Nat → RawFontDict)
+    (reqs : List Nat) : ∀ (m : RsrcMgr), CacheOK mk doc m →
+    getFonts mk doc m reqs = reqs.map (fun i => mk (doc i)) := by
+  induction reqs with
+  | nil => intro m _; rfl
+  | cons i rest ih =>
+    intro m h
+    obtain ⟨h1, h2⟩ := getFont_transparent mk doc m h i
+    simp only [getFonts, List.map_cons, h1, ih _ h2]
+
+/-- Non-vacuity: a fresh resource manager satisfies the invariant. -/
+example (mk : RawFontDict → Except String Font) (doc : Nat → RawFontDict) (c : Bool) :
+    CacheOK mk doc { caching := c, cache := [] } := by intro e he; cases he
+
 /-! ## The excluded region is really excluded: pdfminer's deliberate deviations from AGL -/
 
 /-- The unrestricted statement: `name2unicode` is the AGL algorithm on EVERY name. -/
